@@ -26,6 +26,10 @@ fn repl() {
             }
             continue;
         }
+        if let Some(t) = l.strip_prefix(".mask ") {
+            vibesql_types::verif::set_skip_mask(t.trim().parse().unwrap_or(0));
+            continue;
+        }
         if let Some(t) = l.strip_prefix(".u ") {
             if let Some(tb) = sut.db.get_table(t.trim()) {
                 println!("  schema.pk={:?} uniques={:?}", tb.schema.primary_key, tb.schema.unique_constraints);
